@@ -1,4 +1,5 @@
 import Evl.Model.Json
+import Evl.Model.JsonParse
 import Driver.Util
 /- Line protocol for M8 Json. Bytes are hex strings ("-" for empty). -/
 namespace Driver.Json
@@ -38,6 +39,18 @@ def showOut : Out → String
   | .dropped b => "dropped " ++ tohex b
   | .error => "error"
 
+mutual
+partial def showJ : J → List String
+  | .null => ["n"] | .bool true => ["t"] | .bool false => ["f"]
+  | .num l => ["#" ++ tohex l] | .str s => ["S" ++ tohex s]
+  | .arr es => ["["] ++ showJL es ++ ["]"]
+  | .obj ms => ["{"] ++ showJM ms ++ ["}"]
+partial def showJL : JL → List String
+  | .nil => [] | .cons v r => showJ v ++ showJL r
+partial def showJM : JM → List String
+  | .nil => [] | .cons k v r => ["K" ++ tohex k] ++ showJ v ++ showJM r
+end
+
 def stepLine (u : Unit) (line : String) : Unit × String :=
   match toks line with
   | "fmt" :: created :: ty :: ts =>
@@ -48,6 +61,14 @@ def stepLine (u : Unit) (line : String) : Unit × String :=
     match unhex created, unhex ty, parsePred pred, ts.mapM parseTok with
     | some c, some t, some p, some ts => (u, showOut (jsonFormatterFilter c t ts p))
     | _, _, _, _ => (u, "bad-op")
+  | ["parse", doc] =>
+    match unhex doc with
+    | some b => (u, match parseDoc b with | some v => "ok " ++ " ".intercalate (showJ v) | none => "bad")
+    | none => (u, "bad-op")
+  | ["accepts", doc] =>
+    match unhex doc with
+    | some b => (u, if (parseDoc b).isSome then "ok" else "bad")
+    | none => (u, "bad-op")
   | ["filter", pred] =>
     match parsePred pred with
     | some p => (u, match filterNode p with | .forward => "forward" | .dropped => "dropped" | .error => "error")
